@@ -58,7 +58,7 @@ PyEq(a, b) == IF VNumeric(a) /\ VNumeric(b) THEN a.n = b.n
 
 Arity(k) == CASE k \in {"int", "none", "true", "false", "name"} -> 0
               [] k \in {"not", "neg", "ident", "len", "first", "attr", "isnone", "all_gt", "all_pos", "sum_star", "comp", "typeof"} -> 1
-              [] k \in {"add", "floordiv", "and", "or", "lt", "eq", "in"} -> 2
+              [] k \in {"add", "floordiv", "and", "or", "lt", "eq", "in", "star_then", "pairlen"} -> 2
               [] k \in {"ifexp", "lt2", "and3", "or3"} -> 3
 
 Expr == case.expr
@@ -110,15 +110,19 @@ AllWalk(k, K, xs, i) ==
               ELSE IF e > K THEN AllWalk(k, K, xs, i + 1) ELSE Ok(VAllFail(e))
          ELSE IF e = NoneElem \/ ~(e > 0) THEN AllWalk(k, K, xs, i + 1)          \* filtered out
               ELSE IF (10 \div e) > K THEN AllWalk(k, K, xs, i + 1) ELSE Ok(VAllFail(e))
-\*   sum_star : total(*<c>)         where total = lambda *v: sum(v): the operand is unpacked into the call
+\*   sum_star : digits(*<c>)        the operand is unpacked into the call of an order-sensitive function
+\*   star_then: digits(*<a>, <b>)   (binary) a plain positional argument AFTER a starred one
+\*   pairlen  : len([<a>, <b>])     (binary) a list display: its elements are evaluated, never compared
 \*   comp     : [x for x in <c>]    a list comprehension whose loop variable is called like the argument x
-RECURSIVE SumSeq(_, _)
-SumSeq(s, i) == IF i > Len(s) THEN 0 ELSE s[i] + SumSeq(s, i + 1)
+\* digits(*v): an ORDER-SENSITIVE function of its positional arguments (((v1 * 10) + v2) * 10 + ...)
+RECURSIVE Digits(_, _, _)
+Digits(s, i, acc) == IF i > Len(s) THEN acc ELSE Digits(s, i + 1, acc * 10 + s[i])
+HasNoneElem(s) == \E i \in DOMAIN s : s[i] = NoneElem
 Unary(k, v) ==
   CASE k = "not" -> Ok(VBool(~Truthy(v)))
     [] k = "sum_star" -> IF v.t # "list" THEN Exc("TypeError")
-                         ELSE IF \E i \in DOMAIN v.s : v.s[i] = NoneElem THEN Exc("TypeError")
-                         ELSE Ok(VInt(SumSeq(v.s, 1)))
+                         ELSE IF HasNoneElem(v.s) THEN Exc("TypeError")
+                         ELSE Ok(VInt(Digits(v.s, 1, 0)))
     [] k = "comp" -> IF v.t = "list" THEN Ok(v) ELSE Exc("TypeError")
     [] k = "typeof" -> Ok(VCls(ClsOfVal(v)))      \* type(<c>): a call whose result is a class object
     [] k = "neg" -> IF VNumeric(v) THEN Ok(VInt(0 - v.n)) ELSE Exc("TypeError")
@@ -135,8 +139,14 @@ Binary(k, a, b) ==
                          ELSE Exc("TypeError")
     [] k = "lt" -> IF VNumeric(a) /\ VNumeric(b) THEN Ok(VBool(a.n < b.n))
                    ELSE IF a.t = "list" /\ b.t = "list" THEN ListLess(a.s, b.s) ELSE Exc("TypeError")
-    [] k = "eq" -> Ok(VBool(PyEq(a, b)))
-    [] k = "in" -> IF b.t = "list" THEN Ok(VBool(\E i \in DOMAIN b.s : PyEq(a, VElem(b.s[i])))) ELSE Exc("TypeError")
+    \* the harness's objects are STRICT value objects: comparing one with anything but such an object raises TypeError
+    [] k = "eq" -> IF (a.t = "obj") # (b.t = "obj") THEN Exc("TypeError") ELSE Ok(VBool(PyEq(a, b)))
+    [] k = "in" -> IF b.t # "list" THEN Exc("TypeError")
+                   ELSE IF a.t = "obj" /\ b.s # <<>> THEN Exc("TypeError")
+                   ELSE Ok(VBool(\E i \in DOMAIN b.s : PyEq(a, VElem(b.s[i]))))
+    [] k = "star_then" -> IF a.t # "list" \/ HasNoneElem(IF a.t = "list" THEN a.s ELSE <<>>) \/ ~VNumeric(b) THEN Exc("TypeError")
+                          ELSE Ok(VInt(Digits(Append(a.s, b.n), 1, 0)))
+    [] k = "pairlen" -> Ok(VInt(2))
 \* Python itself sees a failed quantifier simply as False
 PyView(v) == IF v.t = "allfail" THEN VBool(FALSE) ELSE v
 
@@ -187,6 +197,9 @@ Eval(p) ==
               ELSE LET c == Eval(Child3(p)) IN
                    IF c.st # "ok" THEN [st |-> c.st, v |-> c.v, ev |-> a.ev \cup b.ev \cup c.ev \cup {p}]
                    ELSE LET r2 == Binary("lt", b.v, c.v) IN [st |-> r2.st, v |-> r2.v, ev |-> a.ev \cup b.ev \cup c.ev \cup {p}]
+  ELSE IF k = "star_then" /\ Eval(Child1(p)).st = "ok" /\ Eval(Child1(p)).v.t # "list" THEN
+    \* f(*a, b): a is unpacked as soon as it has been evaluated; if it is not iterable, b is never evaluated
+    [st |-> "exc", v |-> Exc("TypeError").v, ev |-> Eval(Child1(p)).ev \cup {p}]
   ELSE \* plain binary operator: both operands, left to right
     LET a == Eval(Child1(p)) IN
     IF a.st # "ok" THEN [st |-> a.st, v |-> a.v, ev |-> a.ev \cup {p}]
@@ -231,6 +244,9 @@ Rec(p) ==
          [st |-> b.st, v |-> b.v, tc |-> c.tc \cup b.tc \cup {p},
           val |-> c.val \cup b.val \cup (IF b.st = "ok" THEN {<<p, b.v>>} ELSE {})]
   ELSE IF k = "lt2" THEN RecChain(p)
+  ELSE IF k = "star_then" /\ Rec(Child1(p)).st = "ok" /\ Rec(Child1(p)).v.t # "list" THEN
+    \* visit_Call unpacks the starred value before it visits the next argument
+    [st |-> "exc", v |-> PH, tc |-> Rec(Child1(p)).tc \cup {p}, val |-> Rec(Child1(p)).val]
   ELSE
     LET a == Rec(Child1(p)) b == Rec(Child2(p)) IN      \* visit_BinOp / visit_Compare visit both operands first
     IF a.st = "exc" THEN [st |-> "exc", v |-> a.v, tc |-> a.tc \cup {p}, val |-> a.val]
@@ -305,7 +321,7 @@ RecChain(p) ==
 -----------------------------------------------------------------------------
 (* What the message shows: names, attributes, calls and subscripts that got *)
 (* a recorded value (icontract/_represent.py).                              *)
-ShownKind(k) == k \in {"name", "ident", "len", "first", "attr", "all_gt", "all_pos", "sum_star", "comp", "typeof"}
+ShownKind(k) == k \in {"name", "ident", "len", "first", "attr", "all_gt", "all_pos", "sum_star", "comp", "typeof", "star_then", "pairlen"}
 PyRes  == Eval(1)
 RecRes == Rec(1)
 Shown  == {pv \in RecRes.val : pv[1] = 0 \/ ShownKind(Expr[pv[1]].k)}
